@@ -1,11 +1,14 @@
 package main
 
 import (
+	"fmt"
 	"go/ast"
 	"go/token"
 	"go/types"
 	"math/big"
 	"strings"
+
+	"golang.org/x/tools/go/ssa"
 )
 
 // bEnv evaluates contract expressions for Engine B.  Values are bVals; ghost functions:
@@ -27,6 +30,7 @@ type bEnv struct {
 	inOld bool
 	lets  []LetDef
 	pkg   string
+	callee bool // the contract is being applied at a call site (announced(x) is then the abstract bsize(x))
 }
 
 func (b *bEnv) state() *bState {
@@ -88,6 +92,12 @@ func (b *bEnv) Eval(x ast.Expr) bVal {
 			return bScalar{ConstI(abstractConst(n.Name))}
 		}
 		panic(verr("spec(B): unknown identifier %s", n.Name))
+	case *ast.StarExpr:
+		pv, ok := b.Eval(n.X).(bPtr)
+		if !ok || pv.obj == 0 {
+			panic(verr("spec(B): cannot dereference %s", exprString(n.X)))
+		}
+		return b.e.loadAt(b.state(), pv)
 	case *ast.UnaryExpr:
 		switch n.Op {
 		case token.NOT:
@@ -270,7 +280,11 @@ func (b *bEnv) call(n *ast.CallExpr) bVal {
 		v := b.Eval(arg(0))
 		return bScalar{App("dist", SInt, ConstI(int64(b.e.objectIdentity(b.state(), v, arg(0)))))}
 	case "len":
-		switch a := b.Eval(arg(0)).(type) {
+		lv := b.Eval(arg(0))
+		if p, ok := lv.(bPtr); ok && p.obj != 0 {
+			lv = b.e.loadAt(b.state(), p)
+		}
+		switch a := lv.(type) {
 		case bSlice:
 			return bScalar{b.state().norm(a.len)}
 		case *bStruct:
@@ -284,6 +298,9 @@ func (b *bEnv) call(n *ast.CallExpr) bVal {
 		switch a := b.Eval(arg(0)).(type) {
 		case bPtr:
 			known, t = true, Bool(a.obj == 0)
+			if a.nilv != nil {
+				t = b.state().norm(a.nilv)
+			}
 		case bSlice:
 			known, t = true, Bool(a.nil_)
 		case *bIface:
@@ -294,17 +311,45 @@ func (b *bEnv) call(n *ast.CallExpr) bVal {
 			} else if a.sym != "" {
 				known, t = true, b.state().norm(Var(a.sym+".isnil", SBool))
 			}
+		case bOpaque:
+			if nt, ok := opaqueNil(a); ok {
+				known, t = true, b.state().norm(nt)
+			}
 		}
 		if !known {
 			panic(verr("spec(B): nil-ness of %s is not known", exprString(arg(0))))
 		}
 		return bScalar{t}
+	case "bsize":
+		// announced serialized size of a value: an uninterpreted function of the identity of its contents
+		ts := b.e.contentTerms(b.state(), b.Eval(arg(0)), arg(0))
+		return bScalar{App(fmt.Sprintf("bsize%d", len(ts)), SInt, ts...)}
+	case "announced":
+		// the number of bytes the value announces: what its BinarySize method returns.  In the
+		// function under verification the method is executed symbolically on the current state; at
+		// a call site it is the abstract size of the callee's object.
+		v := b.Eval(arg(0))
+		return bScalar{b.e.announced(b.state(), v, arg(0), b.callee)}
+	case "pending":
+		// bytes handed to a buffered writer and not flushed yet (ghost counter per writer)
+		return bScalar{Select(b.e.ghostArr(b.state(), "pending"), ConstI(int64(b.e.objectIdentity(b.state(), b.Eval(arg(0)), arg(0)))))}
 	case "implies":
-		return bScalar{Implies(b.Term(arg(0)), b.Term(arg(1)))}
+		// the consequent is evaluated only when the antecedent is not plainly false (nil guards)
+		c := b.state().norm(b.Term(arg(0)))
+		if c.IsFalse() {
+			return bScalar{TTrue}
+		}
+		return bScalar{Implies(c, b.Term(arg(1)))}
 	case "iff":
 		return bScalar{Eq(b.Term(arg(0)), b.Term(arg(1)))}
 	case "ite":
-		c := b.Term(arg(0))
+		c := b.state().norm(b.Term(arg(0)))
+		if c.IsTrue() {
+			return b.Eval(arg(1))
+		}
+		if c.IsFalse() {
+			return b.Eval(arg(2))
+		}
 		x, y := b.Term(arg(1)), b.Term(arg(2))
 		return bScalar{Ite(c, x, y)}
 	}
@@ -379,4 +424,150 @@ func abstractConst(name string) int64 {
 	v := int64(9100 + len(abstractConsts))
 	abstractConsts[name] = v
 	return v
+}
+
+// opaqueNil: nil-ness of a map value (maps are opaque; a map made by the code is not nil, the
+// nil-ness of an input map is a symbolic boolean named after its access path).
+func opaqueNil(a bOpaque) (*Term, bool) {
+	if a.typ == nil {
+		return nil, false
+	}
+	if _, isMap := a.typ.Underlying().(*types.Map); !isMap {
+		return nil, false
+	}
+	if a.name == "make" {
+		return TFalse, true
+	}
+	if a.name == "zero" {
+		return TTrue, true
+	}
+	return Var(a.name+".isnil", SBool), true
+}
+
+// contentTerms names the contents of a value: two values with the same terms have the same
+// contents.  Structs are named by (access path, store version), slices by (array, version, length).
+func (e *bEngine) contentTerms(st *bState, v bVal, x ast.Expr) []*Term {
+	switch a := v.(type) {
+	case bScalar:
+		return []*Term{a.t}
+	case bPtr:
+		if a.obj == 0 {
+			panic(verr("spec(B): contents of a nil pointer in %s", exprString(x)))
+		}
+		o := e.obj(st, a.obj)
+		if o.arr && a.path == "" {
+			return []*Term{ConstI(int64(e.reg.idFor(fmt.Sprintf("content:arr%d#%d", a.obj, o.ver))))}
+		}
+		return e.contentTerms(st, e.loadAt(st, a), x)
+	case *bIface:
+		if a.val != nil {
+			return e.contentTerms(st, a.val, x)
+		}
+		return []*Term{ConstI(int64(e.reg.idFor("content:iface:" + a.sym)))}
+	case *bStruct:
+		return []*Term{ConstI(int64(e.reg.idFor(fmt.Sprintf("content:%s#%d", a.sym, a.ver))))}
+	case bSlice:
+		if a.nil_ {
+			return []*Term{ConstI(0), ConstI(0)}
+		}
+		o := e.obj(st, a.arr)
+		return []*Term{ConstI(int64(e.reg.idFor(fmt.Sprintf("content:arr%d#%d", a.arr, o.ver)))), st.norm(a.len)}
+	case bOpaque:
+		return []*Term{ConstI(int64(e.reg.idFor("content:opaque:" + a.name)))}
+	}
+	panic(verr("spec(B): %s has no nameable contents", exprString(x)))
+}
+
+// announced runs the BinarySize method of v's type on (a copy of) the state and returns its
+// result as a term: an if-then-else over the paths of the method.
+func (e *bEngine) announced(st *bState, v bVal, x ast.Expr, asCall bool) *Term {
+	var typ types.Type
+	arg := v
+	switch a := v.(type) {
+	case *bStruct:
+		typ = a.typ
+	case bSlice, bOpaque:
+		panic(verr("spec(B): announced(%s): give the contract a struct or pointer value", exprString(x)))
+	case bPtr:
+		if a.obj == 0 {
+			panic(verr("spec(B): announced(nil) in %s", exprString(x)))
+		}
+		lv := e.loadAt(st, a)
+		sv, ok := lv.(*bStruct)
+		if !ok {
+			// a named slice / map type behind a pointer (structs.Vector ...): its size is abstract
+			ts := e.contentTerms(st, lv, x)
+			return App(fmt.Sprintf("bsize%d", len(ts)), SInt, ts...)
+		}
+		typ, arg = sv.typ, cloneVal(sv)
+	default:
+		panic(verr("spec(B): announced(%s): unsupported value %s", exprString(x), describeVal(v)))
+	}
+	var fn *ssa.Function
+	byPtr := false
+	if sel := e.fp.prog.MethodSets.MethodSet(typ).Lookup(nil, "BinarySize"); sel != nil {
+		fn = e.fp.prog.MethodValue(sel)
+	} else if sel := e.fp.prog.MethodSets.MethodSet(types.NewPointer(typ)).Lookup(nil, "BinarySize"); sel != nil {
+		fn = e.fp.prog.MethodValue(sel)
+		byPtr = true
+	}
+	if fn == nil || len(fn.Blocks) == 0 {
+		panic(verr("spec(B): announced(%s): type %s has no BinarySize method", exprString(x), bTypeName(typ)))
+	}
+	if asCall {
+		// at a call site the announced size is a call of BinarySize: abstract when the method is under contract
+		if con, _ := e.contractFor(fn); con != nil {
+			ts := e.contentTerms(st, v, x)
+			return App(fmt.Sprintf("bsize%d", len(ts)), SInt, ts...)
+		}
+	}
+	sub := st.clone()
+	sub.frames, sub.calls = nil, nil
+	if byPtr {
+		if p, ok := v.(bPtr); ok {
+			arg = p
+		} else {
+			sub.nextID++
+			sub.objs[sub.nextID] = &bObject{id: sub.nextID, typ: typ, root: cloneVal(arg)}
+			arg = bPtr{obj: sub.nextID}
+		}
+	}
+	base := len(sub.path)
+	e.pushFrame(sub, fn, []bVal{arg}, nil, nil)
+	type out struct{ pc, r *Term }
+	var outs []out
+	saved := e.obls
+	e.runAll(sub, func(fs *bState, res bVal) {
+		r, ok := asScalar(res)
+		if !ok {
+			panic(verr("spec(B): BinarySize of %s does not return a scalar", bTypeName(typ)))
+		}
+		// branch conditions select the path; the facts met on it (postconditions of the callees,
+		// about variables that are fresh on this path) hold under them
+		pc := TTrue
+		var facts []*Term
+		for _, a := range fs.path[base:] {
+			if fs.branch[a.Key()] {
+				pc = And(pc, a)
+			} else {
+				facts = append(facts, a)
+			}
+		}
+		for _, f := range facts {
+			st.assume(Implies(pc, f))
+		}
+		outs = append(outs, out{pc, fs.norm(r)})
+	})
+	e.obls = saved
+	if len(outs) == 0 {
+		panic(verr("spec(B): BinarySize of %s has no returning path", bTypeName(typ)))
+	}
+	t := Var(e.freshName("announced.other"), SInt)
+	if len(outs) == 1 && outs[0].pc.IsTrue() {
+		return outs[0].r
+	}
+	for i := len(outs) - 1; i >= 0; i-- {
+		t = Ite(outs[i].pc, outs[i].r, t)
+	}
+	return t
 }
